@@ -187,6 +187,7 @@ func (c04) Case(c *core.Ctx) {
 	defer ResetDefaults()
 	defer verifyKept(c, "c04-retained-output-changed")
 	c.Eval()
+	failedCalls(c, 8)
 	indent := []string{"  ", "\t", " ", "    "}[r.Intn(4)]
 	prefix := []string{"", "", " ", "\t"}[r.Intn(4)]
 
